@@ -100,10 +100,17 @@ def run_reader_faults(outcome, tier, seed):
                 sched = corpus.random_sched(rng)
                 reqs.append({"id": len(reqs), "to": to, "calls": [{"input": shared.hx(data), "from": frm, "mode": "reader", "sched": sched,
                                                                     "rfault": k, "rkind": kd}]})
-                meta.append((fmt, data, frm, to, k, kd, sched, base))
+                meta.append((fmt, data, frm, to, k, kd, sched, base, MARK + str(k)))
+            # error values that carry no boxed payload: an OS error (EIO) and a bare kind; their own text must be in the message
+            if boundary or tier == "thorough" or k % 4 == 1:
+                for style, kd2, mark in ((1, "other", "os error 5"), (2, "timed_out", "timed out")):
+                    sched = corpus.random_sched(rng)
+                    reqs.append({"id": len(reqs), "to": to, "calls": [{"input": shared.hx(data), "from": frm, "mode": "reader", "sched": sched,
+                                                                        "rfault": k, "rkind": kd2, "rstyle": style}]})
+                    meta.append((fmt, data, frm, to, k, "%s (no payload, style %d)" % (kd2, style), sched, base, mark))
     resps = common.harness_batch(reqs, timeout=1200)
     hist = {}
-    for (fmt, data, frm, to, k, kd, sched, base), resp in zip(meta, resps):
+    for (fmt, data, frm, to, k, kd, sched, base, mark), resp in zip(meta, resps):
         r = shared.session_result(resp)
         info = {"source_format": fmt, "from": frm or "detect", "to": to, "rfault": k, "rkind": kd, "sched": sched,
                 "input_hex": shared.hx(data), "observed": [r[0], r[1][:300]], "fault_free": [base[0], base[1][:200]]}
@@ -116,7 +123,7 @@ def run_reader_faults(outcome, tier, seed):
             continue
         # an error: it is the reader's (text preserved), unless the fault-free run already fails with an error that is met
         # before byte k is needed (then the same error text as the fault-free run is right)
-        if (MARK + str(k)) not in r[1]:
+        if mark not in r[1]:
             # the translation may fail for its own reason before byte k is needed: then the fault-free error is right
             # (parsers report a position that depends on their look-ahead, so positions are not compared)
             if not (base[0] == "err" and POS.sub("", r[1]) == POS.sub("", base[1])):
